@@ -4,7 +4,10 @@ proof:  Properties/C06.v (bind_refines: Macro.__call__ == documented binding rel
         signatures / calls with distinct names; binds functional + total; protocol_agrees between
         compiler.macro_body and runtime.Macro.__call__; no arity error; defaults at call time;
         module call == template call)
-tie  :  K-rt on real Macro objects built by real compilation: the `arguments` list that
+tie  :  T5 translator: gen/macro_translate.py turns the current source of Macro.__call__ into a term
+        of Lib/PyMacro; the generated Gen_macro.v proves  interpreted source = macro_entry  for all
+        signatures, argument tuples and keyword dicts (the for loop by induction over the names);
+        K-rt on real Macro objects built by real compilation: the `arguments` list that
         Macro.__call__ hands to the generated function (captured by wrapping Macro._func), the
         TypeError kind, the Python parameter names of the generated function and the Macro
         attributes (K-gen for macro_body/macro_def), and what the macro body then sees (rendered
@@ -19,8 +22,8 @@ import itertools
 
 from . import lib
 
-RULE = ("signatures: 0..4 parameters (plain names, `caller` at every position, `kwargs`/`varargs` as parameter "
-        "names) x 0..3 defaults (constant, None, reference to an earlier / later parameter, outer variable re-set "
+RULE = ("signatures: 0..4 parameters (plain names, `caller` at every position, `kwargs`/`varargs` and Python keywords "
+        "(`class`, `for`) as parameter names) x 0..3 defaults (constant, None, reference to an earlier / later parameter, outer variable re-set "
         "after the definition, context variable, unknown name) x 2^3 uses of caller/kwargs/varargs in the body. "
         "calls: exhaustive for signatures up to N parameters: 0..P positionals x every ordered-by-name subset of up "
         "to K keywords from {parameter names, unknown name, caller} (caller value cycling over macro / None / int), "
@@ -29,8 +32,8 @@ RULE = ("signatures: 0..4 parameters (plain names, `caller` at every position, `
         "distinct = (signature, call, path); non-trivial = at least one parameter not filled positionally and at "
         "least one keyword, surplus positional or special variable involved.")
 
-NAMES = {0: "caller", 1: "kwargs", 2: "varargs", 3: "a", 4: "b", 5: "c", 6: "d", 10: "o1", 11: "o2", 12: "o3",
-         20: "z", 21: "y"}
+NAMES = {0: "caller", 1: "kwargs", 2: "varargs", 3: "a", 4: "b", 5: "c", 6: "d", 7: "class", 8: "for",
+         10: "o1", 11: "o2", 12: "o3", 20: "z", 21: "y", 22: "if"}
 IDS = {v: k for k, v in NAMES.items()}
 O1_DEF, O1_CALL, O2_CTX = 90, 91, 92
 
@@ -279,6 +282,9 @@ def signatures(ctx, max_n):
         if n:
             variants.append(base[:-1] + [1])
             variants.append([2] + base[1:])
+            variants.append(base[:-1] + [7])          # a parameter named like a Python keyword
+        if n >= 2:
+            variants.append([8] + base[1:-1] + [7])
         for params in variants:
             for nd in range(0, min(n, 3) + 1):
                 for uses in itertools.product((0, 1), repeat=3):
@@ -304,7 +310,7 @@ def exhaustive_calls(d, max_pos, max_kw, cyc):
 
 
 def random_call(ctx, d, path):
-    cand = sorted(set(d["params"]) | {20, 21, 0})
+    cand = sorted(set(d["params"]) | {20, 21, 22, 0})
     npos = ctx.rng.randint(0, 5)
     k = ctx.rng.randint(0, min(4, len(cand)))
     names = ctx.rng.sample(cand, k)
@@ -461,6 +467,16 @@ def probes(ctx, real):
         ("{% macro m(a) %}{{ a }}{% endmacro %}{{ m(a=1, a=2) }}", "duplicate keyword"),
         ("{% macro m(a) %}{{ a }}{{ kwargs }}{% endmacro %}{{ m(a=1, **{'a': 2}) }}", "duplicate keyword"),
         ("{% macro m(a) %}{{ caller() }}{% endmacro %}{% call m(caller=1) %}x{% endcall %}", "duplicate keyword"),
+        # a keyword that is a Python keyword switches compiler.signature to its dict workaround
+        ("{% macro m(class=0, a=0) %}{{ class }}|{{ a }}{% endmacro %}{{ m(class=1, **{'class': 2}) }}",
+         "duplicate keyword (python-keyword name)"),
+        ("{% macro m(class=0, a=0) %}{{ class }}|{{ a }}{% endmacro %}{{ m(class=1, a=2, **{'a': 3}) }}",
+         "duplicate keyword (python-keyword name)"),
+        ("{% macro m(class=0, a=0) %}{{ class }}|{{ a }}{% endmacro %}{{ m(class=1, class=2) }}",
+         "duplicate keyword (python-keyword name)"),
+        ("{% macro m(class=0) %}{{ class }}{{ caller() }}{% endmacro %}{% call m(class=1, **{'caller': 2}) %}x{% endcall %}",
+         "duplicate keyword (python-keyword name)"),
+        ("{{ 1|default(class=1, **{'class': 2}) }}", "duplicate keyword (python-keyword name)"),
     ]:
         n += 1
         try:
@@ -483,6 +499,19 @@ def run(ctx):
         "default expressions in the tie are constants and names; other expressions are C02's subject",
     ]
     ctx.proof("C06")
+    # T5: Macro.__call__'s current source, translated into the deep embedding Lib/PyMacro.v, is proved
+    # equal to the model function macro_entry for every signature / argument tuple / keyword dict
+    import os
+    import sys
+    sys.path.insert(0, os.path.join(lib.ROOT, "gen"))
+    import macro_translate
+    try:
+        vtext = macro_translate.emit(lib.SRC)
+        ok, out = ctx.coq_obligation("Gen_macro", vtext, n_obligations=7)
+        if ok:
+            ctx.trusted.append("Gen_macro (Macro.__call__ source = model, loop by induction): " + " ".join(out.split()))
+    except macro_translate.Untranslatable as e:
+        ctx.broken.append(f"translator gen/macro_translate.py: Macro.__call__ left the translatable vocabulary: {e}")
     real = Real(jinja2)
     sigs = signatures(ctx, 4)
     ex_n, ex_pos, ex_kw = ctx.size((2, 3, 2), (4, 5, 4))
